@@ -51,8 +51,6 @@ var InterpStd = map[string]bool{
 	"internal/bytealg":         false,
 	"internal/itoa":            false,
 	"connectrpc.com/connect":   false,
-	"go.uber.org/zap":          false,
-	"go.uber.org/zap/zapcore":  false,
 	"github.com/rs/xid":        false,
 	"google.golang.org/protobuf/types/known/timestamppb": false,
 	"google.golang.org/protobuf/types/known/wrapperspb":  false,
